@@ -116,6 +116,17 @@ NOTES = {
 }
 
 
+# seeded changes that no longer manifest on /repo HEAD: their own demonstration passes with the change applied
+SUPERSEDED = {
+    "C07-M6": "no longer manifests on /repo HEAD: repair 47a4cd1 (the queue releases the sender whose value was taken and drops its other registrations) removes the stale registrations this change needs; the agent's demonstration passes with the change applied. It was caught by C08 (spurious deadlock, stale-sender pattern) on the tree it was written against",
+    "C10-M6": "no longer manifests on /repo HEAD: repair fb184ed makes natives hand out the current block of a list, so the 'born forwarded' searched value this change needs does not exist any more; the agent's demonstration passes with the change applied",
+    "C19-M9": "no longer manifests on /repo HEAD: repair 022d5cc hands out every runnable waiter when a prompt entry ends, so the waiter this change drops is already queued; the agent's demonstration passes with the change applied",
+}
+NOT_CAUGHT_REASON = {
+    "C19-M8": "needs a channel closed by a fiber that never used it (the zone of the pinned finding C08-close-by-non-user); a registration left behind by a returned prompt entry was not reached by any generated session",
+}
+
+
 def parse_eval(path):
     results = {}
     current = None
@@ -133,11 +144,15 @@ def parse_eval(path):
 
 def main():
     logs = sys.argv[1:]
-    evals = {}
+    # later logs override earlier ones, per (change, check)
+    merged = {}
     for log in logs:
         for key, lines in parse_eval(log).items():
-            if lines:
-                evals[key] = lines
+            for line in lines:
+                if line.startswith("NOTE") or " exit=2 " in line:
+                    continue
+                merged.setdefault(key, {})[line.split()[0]] = line
+    evals = {key: [per_check[check] for check in sorted(per_check)] for key, per_check in merged.items()}
     os.makedirs(SEEDED, exist_ok=True)
     rows = []
     rounds = [("wt", 0, "/tmp/confirm"), ("wt2", 3, "/tmp/confirm2"), ("wt3", 6, "/tmp/confirm3")]
@@ -173,7 +188,9 @@ def main():
                 "written_by": "independent sub-agent that saw only the property text and its own scratch worktree",
                 "mechanism": mechanism,
                 "needs_to_manifest": needs,
-                "base_commit": "the commit it was written against (a later repair touches the same lines)" if any("NOTE" in line for line in lines) else "applies to /repo HEAD",
+                "base_commit": ("patch.diff is the agent's original (written against %s); a later repair touches the same lines, patch_head.diff is "
+                                "the same change carried over to /repo HEAD and is what was evaluated" % ("e63ffed" if prefix == "wt3" else "b751187"))
+                               if os.path.exists(os.path.join(source, "patch_head.diff")) else "applies to /repo HEAD",
                 "independent_confirmation": {
                     "patch_applies": confirm.get("patch_applies"),
                     "builds": confirm.get("builds"),
@@ -182,12 +199,15 @@ def main():
                     "demonstration_discriminates": confirm.get("demo_discriminates"),
                     "clean_tree": confirm.get("clean_tree"),
                     "with_patch": confirm.get("with_patch"),
+                    "note": confirm.get("note"),
                     "command": "tools/confirm_mutant.py /tmp/%s_%s %s" % (prefix, prop, source),
                 },
                 "checks_run": ["tools/eval_mutant.py /tmp/%s_%s <patch> <check>   (quick tier unless the result line says otherwise, VERIF_SEED=1)" % (prefix, prop)],
                 "results": lines,
                 "caught": bool(caught),
                 "caught_by": caught_by,
+                "superseded": SUPERSEDED.get(key),
+                "not_caught_because": NOT_CAUGHT_REASON.get(key) if not caught else None,
             }
             with open(os.path.join(target, "meta.json"), "w") as handle:
                 json.dump(meta, handle, indent=1)
@@ -196,7 +216,12 @@ def main():
             if caught:
                 found = re.search(r"\[(.*?)\] \|", caught[0])
                 clauses = found.group(1)[:160] if found else ""
-            rows.append((key, mechanism, "caught by %s: %s" % (", ".join(caught_by), clauses) if caught else "NOT caught",
+            verdict = "caught by %s: %s" % (", ".join(caught_by), clauses) if caught else "NOT caught"
+            if not caught and key in SUPERSEDED:
+                verdict = "superseded: " + SUPERSEDED[key]
+            elif not caught and key in NOT_CAUGHT_REASON:
+                verdict = "NOT caught: " + NOT_CAUGHT_REASON[key]
+            rows.append((key, mechanism, verdict,
                          "yes" if confirm.get("suite_only_baseline_failures") and confirm.get("demo_discriminates") else str(confirm.get("suite_only_baseline_failures")) + "/" + str(confirm.get("demo_discriminates"))))
     with open(os.path.join(SEEDED, "README.md"), "w") as handle:
         handle.write("# Seeded property-breaking changes\n\nEach directory holds a change written by an independent sub-agent (it saw one property's text and a scratch "
@@ -207,7 +232,12 @@ def main():
         handle.write("| id | mechanism | result | suite green + demo discriminates (re-confirmed) |\n|---|---|---|---|\n")
         for row in rows:
             handle.write("| %s | %s | %s | %s |\n" % row)
-    print("%d seeded changes assembled, %d caught" % (len(rows), sum(1 for row in rows if row[2].startswith("caught"))))
+    print("%d seeded changes assembled, %d caught, %d superseded, %d not caught" % (
+        len(rows), sum(1 for row in rows if row[2].startswith("caught")), sum(1 for row in rows if row[2].startswith("superseded")),
+        sum(1 for row in rows if row[2].startswith("NOT"))))
+    for row in rows:
+        if not row[2].startswith("caught"):
+            print("  ", row[0], row[2][:100])
 
 
 if __name__ == "__main__":
